@@ -180,7 +180,7 @@ Definition aiso_f (off : option Z) (rad : bool) : Z :=
   end.
 Definition qiso_f (off : option Z) (rad : bool) : Z :=
   match off with
-  | Some o => Z.lor (bit (o + 54)) (if rad then 0x200000000000 else 0x100000000000)
+  | Some o => Z.lor (if (-8 <=? o) && (o <=? 8) then bit (o + 54) else 0) (if rad then 0x200000000000 else 0x100000000000)
   | None => if rad then 0xffffe00000000000 else 0xffffd00000000000
   end.
 
@@ -211,6 +211,66 @@ Proof.
   specialize (S qr (Hb qr)). rewrite forallb_forall in S. specialize (S ar (Hb ar)).
   apply andb_true_iff in S. destruct S as [S S3]. apply andb_true_iff in S. destruct S as [S1 S2].
   apply eqb_prop in S1. split; [exact S1|]. split; apply withinb_sound; (lia || assumption).
+Qed.
+
+(* a query offset outside the field leaves only the radical bits: no atom passes, and no atom has that isotope *)
+Lemma iso_out_sweep :
+  forallb (fun ao => forallb (fun qr : bool => forallb (fun ar : bool =>
+    negb (sub (if qr then 0x200000000000 else 0x100000000000) (aiso_f ao ar)) &&
+    withinb 44 63 (if qr then 0x200000000000 else 0x100000000000)) [true; false]) [true; false]) opts = true.
+Proof. vm_compute. reflexivity. Qed.
+
+Lemma iso_field_any qo ao qr ar : In ao opts ->
+  sub (qiso_f qo qr) (aiso_f ao ar) = (Bool.eqb qr ar && match qo with None => true | Some _ => option_eqb Z.eqb qo ao end) /\
+  within 44 63 (qiso_f qo qr) /\ within 44 63 (aiso_f ao ar).
+Proof.
+  intros Ha. destruct qo as [o|]; [|apply iso_field; [apply opts_In; exact I | exact Ha]].
+  destruct ((-8 <=? o) && (o <=? 8)) eqn:R.
+  - apply iso_field; [|exact Ha]. apply opts_In. apply andb_true_iff in R. destruct R as [R1 R2]. apply Z.leb_le in R1, R2. lia.
+  - unfold qiso_f. rewrite R, Z.lor_0_l.
+    pose proof iso_out_sweep as S. rewrite forallb_forall in S. specialize (S ao Ha). rewrite forallb_forall in S.
+    assert (Hb : forall b : bool, In b [true; false]) by (intros []; cbn; auto).
+    specialize (S qr (Hb qr)). rewrite forallb_forall in S. specialize (S ar (Hb ar)).
+    apply andb_true_iff in S. destruct S as [S1 S2]. apply negb_true_iff in S1.
+    destruct (iso_field None ao false ar) as [_ [_ Wa]]; [apply opts_In; exact I | exact Ha|].
+    split; [|split; [apply withinb_sound; (lia || assumption) | exact Wa]].
+    rewrite S1. symmetry. apply andb_false_iff. right.
+    destruct ao as [v|]; [|reflexivity]. cbn [option_eqb]. apply Z.eqb_neq. intros ->.
+    apply opts_In in Ha. apply andb_false_iff in R. destruct R as [R|R]; [apply Z.leb_gt in R | apply Z.leb_gt in R]; lia.
+Qed.
+
+(* hydrogens of a query: counts above 4 are skipped *)
+Definition hkeep (h : Z) : bool := negb (4 <? h).
+Lemma or_bits_h_eq l v : or_bits_h l v = or_bits (fun h => h + 30) (filter hkeep l) v.
+Proof.
+  unfold or_bits_h, or_bits. revert v. induction l as [|h l IH]; intros v; cbn [fold_left filter]; [reflexivity|].
+  unfold hkeep at 1. destruct (4 <? h); cbn [negb fold_left]; apply IH.
+Qed.
+Definition tfh (l : list Z) : Z := match l with [] => 0x7c0000000 | _ => or_bits (fun h => h + 30) (filter hkeep l) 0 end.
+Lemma tfh_acc l v : or_field_h l v = Z.lor v (tfh l).
+Proof. destruct l; [reflexivity|]. unfold tfh, or_field_h. rewrite or_bits_h_eq. apply or_bits_acc. Qed.
+Lemma filter_hkeep_In l x : all_in 0 14 l = true -> In x (filter hkeep l) -> 0 <= x <= 4.
+Proof.
+  intros Hl Hx. apply filter_In in Hx. destruct Hx as [Hx Hk]. pose proof (all_in_In _ _ _ _ Hl Hx).
+  unfold hkeep in Hk. apply negb_true_iff, Z.ltb_ge in Hk. lia.
+Qed.
+Lemma tfh_within l : all_in 0 14 l = true -> within 30 34 (tfh l).
+Proof.
+  intros Hl. destruct l as [|y r]; [apply withinb_sound; [lia|lia|vm_compute; reflexivity]|]. unfold tfh.
+  apply or_bits_within. intros x Hx. pose proof (filter_hkeep_In _ _ Hl Hx). lia.
+Qed.
+Lemma sub_tfh l v : all_in 0 14 l = true -> 0 <= v <= 4 ->
+  sub (tfh l) (bit (v + 30)) = negb (nonempty l && negb (zmem v l)).
+Proof.
+  intros Hl Hv. rewrite sub_bit by lia. destruct l as [|y r].
+  - cbn [tfh nonempty andb negb]. assert (P : v + 30 = 30 \/ v + 30 = 31 \/ v + 30 = 32 \/ v + 30 = 33 \/ v + 30 = 34) by lia.
+    destruct P as [->|[->|[->|[->| ->]]]]; reflexivity.
+  - unfold tfh. rewrite or_bits_testbit by (intros x Hx; pose proof (filter_hkeep_In _ _ Hl Hx); lia).
+    cbn [nonempty andb]. rewrite negb_involutive. unfold zmem. apply eq_true_iff_eq. rewrite !existsb_exists.
+    split; intros [x [Hx E]].
+    + apply filter_In in Hx. destruct Hx as [Hx _]. exists x. split; [exact Hx|]. apply Z.eqb_eq in E. apply Z.eqb_eq. lia.
+    + apply Z.eqb_eq in E. subst x. exists v. split; [|apply Z.eqb_refl]. apply filter_In. split; [exact Hx|].
+      unfold hkeep. apply negb_true_iff, Z.ltb_ge. lia.
 Qed.
 
 (* the offset the encoders compute *)
@@ -244,10 +304,10 @@ Definition nbfull := 0x3fff8000.
 
 Lemma enc_x3_fields iso num x :
   enc_x3 iso num x =
-  Z.lor (Z.lor (Z.lor (qiso_f (off_of iso num) (x_rad x)) (bit (x_chg x + 39))) (tf (fun h => h + 30) hfull (x_h x)))
+  Z.lor (Z.lor (Z.lor (qiso_f (off_of iso num) (x_rad x)) (bit (x_chg x + 39))) (tfh (x_h x)))
         (tf (fun n => n) hetfull (x_het x)).
 Proof.
-  unfold enc_x3. rewrite !tf_acc.
+  unfold enc_x3. cbv zeta. rewrite tf_acc, tfh_acc.
   unfold qiso_f, off_of. destruct (iso_truthy iso); reflexivity.
 Qed.
 
@@ -313,10 +373,10 @@ Definition q_hyb (q : qatom) : list Z :=
 Definition q3_of (q : qatom) : Z :=
   match q with
   | QElem num iso x =>
-      q3 (qiso_f (off_of iso num) (x_rad x)) (bit (x_chg x + 39)) (tf (fun h => h + 30) hfull (x_h x))
+      q3 (qiso_f (off_of iso num) (x_rad x)) (bit (x_chg x + 39)) (tfh (x_h x))
          (tf (fun n => n) hetfull (x_het x)) (tf (fun n => n + 15) nbfull (x_nb x))
   | QAny x | QList _ x =>
-      q3 (qiso_f None (x_rad x)) (bit (x_chg x + 39)) (tf (fun h => h + 30) hfull (x_h x))
+      q3 (qiso_f None (x_rad x)) (bit (x_chg x + 39)) (tfh (x_h x))
          (tf (fun n => n) hetfull (x_het x)) (tf (fun n => n + 15) nbfull (x_nb x))
   | QMetal nb _ => q3 0xfffff00000000000 0xff800000000 hfull hetfull (tf (fun n => n + 15) nbfull nb)
   end.
@@ -346,35 +406,34 @@ Lemma add0 f : (forall x : Z, f x = x) -> forall x, f x = x + 0.
 Proof. intros H x. rewrite H. lia. Qed.
 
 Lemma x_fields_within x : qx_ok x = true ->
-  within 35 43 (bit (x_chg x + 39)) /\ within 30 34 (tf (fun h => h + 30) hfull (x_h x)) /\
+  within 35 43 (bit (x_chg x + 39)) /\ within 30 34 (tfh (x_h x)) /\
   within 0 14 (tf (fun n => n) hetfull (x_het x)) /\ within 15 29 (tf (fun n => n + 15) nbfull (x_nb x)).
 Proof.
   intros Hx. unfold qx_ok in Hx. repeat (apply andb_true_iff in Hx; let H := fresh "X" in destruct Hx as [Hx H]).
   range_hyps. split; [|split; [|split]].
   - apply within_bit; lia.
-  - apply (tf_within _ 30 _ _ _ _ 0 4); try lia; auto. apply W; [lia|lia|vm_compute; reflexivity].
+  - apply tfh_within. assumption.
   - apply (tf_within _ 0 _ _ _ _ 0 14); try lia; auto. apply W; [lia|lia|vm_compute; reflexivity].
   - apply (tf_within _ 15 _ _ _ _ 0 14); try lia; auto. apply W; [lia|lia|vm_compute; reflexivity].
 Qed.
 
 (* word III of an ExtendedQuery with isotope offset qo *)
-Lemma sub_x3 qo x a : In qo opts -> qx_ok x = true -> atom_ok a = true ->
-  sub (q3 (qiso_f qo (x_rad x)) (bit (x_chg x + 39)) (tf (fun h => h + 30) hfull (x_h x))
+Lemma sub_x3 qo x a : qx_ok x = true -> atom_ok a = true ->
+  sub (q3 (qiso_f qo (x_rad x)) (bit (x_chg x + 39)) (tfh (x_h x))
           (tf (fun n => n) hetfull (x_het x)) (tf (fun n => n + 15) nbfull (x_nb x))) (a3 a) =
   match qo with None => true | Some _ => option_eqb Z.eqb qo (off_of (la_iso a) (la_num a)) end && x3_ref x a.
 Proof.
-  intros Hq Hx Ha. destruct (x_fields_within x Hx) as [Wc [Wh [Whet Wnb]]].
+  intros Hx Ha. destruct (x_fields_within x Hx) as [Wc [Wh [Whet Wnb]]].
   assert (Hao : In (off_of (la_iso a) (la_num a)) opts).
   { unfold atom_ok in Ha. repeat (apply andb_true_iff in Ha; let H := fresh "A" in destruct Ha as [Ha H]).
     apply off_of_In. assumption. }
-  destruct (iso_field qo (off_of (la_iso a) (la_num a)) (x_rad x) (la_rad a) Hq Hao) as [Fi [Wi _]].
+  destruct (iso_field_any qo (off_of (la_iso a) (la_num a)) (x_rad x) (la_rad a) Hao) as [Fi [Wi _]].
   rewrite (sub_q3 _ _ _ _ _ a Ha Wi Wc Wh Whet Wnb), Fi.
   pose proof Ha as Ha'. unfold atom_ok in Ha'. repeat (apply andb_true_iff in Ha'; let H := fresh "A" in destruct Ha' as [Ha' H]).
   pose proof Hx as Hx'. unfold qx_ok in Hx'. repeat (apply andb_true_iff in Hx'; let H := fresh "X" in destruct Hx' as [Hx' H]).
   destruct (la_h a) as [h|] eqn:Eh; [|discriminate]. range_hyps.
   rewrite (sub_bit _ (la_chg a + 39)), bit_testbit by lia.
-  rewrite (sub_tf (fun h => h + 30) 30 hfull (x_h x) h 0 4);
-    [|reflexivity | assumption | lia | lia | apply hfull_bits; lia].
+  rewrite (sub_tfh (x_h x) h) by (assumption || lia).
   rewrite (sub_tf (fun n => n) 0 hetfull (x_het x) (la_het a) 0 14);
     [|intros; lia | assumption | lia | lia | apply hetfull_bits; lia].
   rewrite (sub_tf (fun n => n + 15) 15 nbfull (x_nb x) (la_nb a) 0 14);
@@ -431,7 +490,7 @@ Definition lmasks (nums : list Z) : Z * Z :=
   fold_left (fun acc n => let '(m1, m2) := elem_masks n in (Z.lor (fst acc) m1, Z.lor (snd acc) m2)) nums (0, 0).
 Definition qm (q : qatom) : Z * Z :=
   match q with
-  | QMetal _ _ => (0x0060707ffc1fff87, 0xfffffff7fffffff0)
+  | QMetal _ _ => (0x0060707ffc1fff87, 0xfffffff3fffffff0)
   | QAny _ => (0x01ffffffffffffff, 0xfffffffffffffff0)
   | QList nums _ => lmasks nums
   | QElem n _ _ => elem_masks n
@@ -479,9 +538,9 @@ Proof. vm_compute. reflexivity. Qed.
 Lemma any_sweep :
   forallb (fun an => elem_test (0x01ffffffffffffff, 0xfffffffffffffff0) an) r118 = true.
 Proof. vm_compute. reflexivity. Qed.
-(* AnyMetal: the two constants agree with the element tables for 1..116 except Rn *)
+(* AnyMetal: the two constants agree with the element tables (is_forming_single_bonds, group 18) for 1..116 *)
 Lemma metal_sweep :
-  forallb (fun an => (an =? 86) || Bool.eqb (elem_test (0x0060707ffc1fff87, 0xfffffff7fffffff0) an) (negb (non_metal an))) r116 = true.
+  forallb (fun an => Bool.eqb (elem_test (0x0060707ffc1fff87, 0xfffffff3fffffff0) an) (negb (non_metal an))) r116 = true.
 Proof. vm_compute. reflexivity. Qed.
 Lemma supports_sweep :
   forallb (fun n => withinb 0 56 (fst (elem_masks n)) && withinb 4 63 (snd (elem_masks n)) && withinb 4 63 (b2e n) &&
@@ -516,11 +575,11 @@ Proof.
 Qed.
 Lemma elem_test_any an : 1 <= an <= 118 -> elem_test (0x01ffffffffffffff, 0xfffffffffffffff0) an = true.
 Proof. intros Ha. pose proof any_sweep as S. rewrite forallb_forall in S. apply S. apply in_r118. exact Ha. Qed.
-Lemma elem_test_metal an : 1 <= an <= 116 -> an <> 86 ->
-  elem_test (0x0060707ffc1fff87, 0xfffffff7fffffff0) an = negb (non_metal an).
+Lemma elem_test_metal an : 1 <= an <= 116 ->
+  elem_test (0x0060707ffc1fff87, 0xfffffff3fffffff0) an = negb (non_metal an).
 Proof.
-  intros Ha H86. pose proof metal_sweep as S. rewrite forallb_forall in S. specialize (S an (proj2 (in_r116 an) Ha)).
-  apply orb_true_iff in S. destruct S as [S|S]; [apply Z.eqb_eq in S; contradiction | apply eqb_prop in S; exact S].
+  intros Ha. pose proof metal_sweep as S. rewrite forallb_forall in S. specialize (S an (proj2 (in_r116 an) Ha)).
+  apply eqb_prop in S. exact S.
 Qed.
 
 (* element lists: the fold is the union of the members' masks *)
@@ -870,7 +929,7 @@ Definition q_x (q : qatom) : qx :=
 
 Lemma qx_ok_parts x : qx_ok x = true ->
   in_range (-4) 4 (x_chg x) = true /\ all_in 0 14 (x_nb x) = true /\ all_in 1 4 (x_hyb x) = true /\
-  all_in 0 4 (x_h x) = true /\ all_in 0 14 (x_het x) = true.
+  all_in 0 14 (x_h x) = true /\ all_in 0 14 (x_het x) = true.
 Proof. unfold qx_ok. rewrite !andb_true_iff. tauto. Qed.
 
 (* words II, III, IV together (they are tested in the same way for the first and for the following atoms) *)
@@ -890,15 +949,15 @@ Proof.
   rewrite (andb_assoc (Z.testbit _ _)), (andb_assoc (Z.testbit _ _)), (andb_assoc (Z.testbit _ _)).
   fold (elem_test (qm q) (la_num a)). rewrite (elem_test_q q _ He).
   destruct q as [n iso x|x|nums x|nb hyb]; cbn [query_ok] in Hq; unfold elem_ref, q3_of, q_hyb, ref_match.
-  - apply andb_true_iff in Hq. destruct Hq as [Hq Hx]. apply andb_true_iff in Hq. destruct Hq as [_ Hi].
-    rewrite (sub_x3 _ x a (off_of_In _ _ Hi) Hx Ha), (meet_w4 x a Hx Ha).
+  - apply andb_true_iff in Hq. destruct Hq as [_ Hx].
+    rewrite (sub_x3 _ x a Hx Ha), (meet_w4 x a Hx Ha).
     destruct (n =? la_num a) eqn:En; cbn [andb]; [|reflexivity].
     apply Z.eqb_eq in En. subst n. rewrite iso_cond_eq.
     destruct (iso_ref iso (la_iso a)), (x3_ref x a), (tup (x_hyb x) (la_hyb a)), (ring_ref x a); reflexivity.
-  - rewrite (sub_x3 None x a ltac:(apply opts_In; exact I) Hq Ha), (meet_w4 x a Hq Ha). cbn [andb].
+  - rewrite (sub_x3 None x a Hq Ha), (meet_w4 x a Hq Ha). cbn [andb].
     destruct (x3_ref x a), (tup (x_hyb x) (la_hyb a)), (ring_ref x a); reflexivity.
   - apply andb_true_iff in Hq. destruct Hq as [_ Hx].
-    rewrite (sub_x3 None x a ltac:(apply opts_In; exact I) Hx Ha), (meet_w4 x a Hx Ha). cbn [andb].
+    rewrite (sub_x3 None x a Hx Ha), (meet_w4 x a Hx Ha). cbn [andb].
     destruct (zmem (la_num a) nums), (x3_ref x a), (tup (x_hyb x) (la_hyb a)), (ring_ref x a); reflexivity.
   - apply andb_true_iff in Hq. destruct Hq as [Hnb Hh].
     rewrite (sub_metal3 nb a Hnb Ha).
@@ -981,38 +1040,33 @@ Proof.
   rewrite forallb_forall in S. apply S. unfold isotope_accepted in Hi. apply zmem_In. exact Hi.
 Qed.
 
-(* ---- what is false on the unchanged tree: the hypotheses of the theorems above cannot be dropped ---- *)
-(* (a) AnyMetal: the mask constant accepts radon although AnyMetal.__eq__ rejects noble gases (GroupXVIII) *)
+(* ---- former findings, now fixed in the code and inside the theorems above: the witnesses of the deleted `_refuted`
+        lemmas are rejected by both sides (AnyMetal vs Rn; query hydrogens (0, 5) vs [C-4]; query isotope 21 vs plain C) ---- *)
 Definition rn_atom : latom := mkLA 86 None 0 false 0 1 (Some 0) 0 [].
-Theorem anymetal_mask_refuted :
-  query_ok (QMetal [] []) = true /\ atom_ok rn_atom = true /\
-  match_atom (QMetal [] []) rn_atom = false /\
-  mask_match_first (enc_qatom (QMetal [] []) None) (enc_atom rn_atom) = true.
-Proof. vm_compute. repeat split; reflexivity. Qed.
-
-(* (b) implicit_hydrogens = None (valence error) is encoded like 0: a query asking for h0 accepts it, __eq__ does not *)
-Definition noh_atom : latom := mkLA 6 None 0 false 5 1 None 0 [].
-Definition h0_query : qatom := QElem 6 None (mkQX 0 false [] [] [0] [] []).
-Theorem hydrogens_none_refuted :
-  query_ok h0_query = true /\ match_atom h0_query noh_atom = false /\
-  mask_match_first (enc_qatom h0_query None) (enc_atom noh_atom) = true.
-Proof. vm_compute. repeat split; reflexivity. Qed.
-
-(* (c) the setter accepts implicit_hydrogens up to 14 but the field has 5 bits: h = 5..13 alias the charge bits *)
 Definition c4_atom : latom := mkLA 6 None (-4) false 0 1 (Some 0) 0 [].
 Definition h05_query : qatom := QElem 6 None (mkQX 0 false [] [] [0; 5] [] []).
-Theorem hydrogens_over_4_refuted :
-  atom_ok c4_atom = true /\ match_atom h05_query c4_atom = false /\
-  mask_match_first (enc_qatom h05_query None) (enc_atom c4_atom) = true.
-Proof. vm_compute. repeat split; reflexivity. Qed.
-
-(* (d) a query isotope 9 above mdl_isotope lands on bit 63 = "isotope not specified": [21C] accepts plain carbon *)
 Definition c_atom : latom := mkLA 6 None 0 false 0 1 (Some 4) 0 [].
 Definition c21_query : qatom := QElem 6 (Some 21) (mkQX 0 false [] [] [] [] []).
-Theorem query_isotope_offset_refuted :
-  atom_ok c_atom = true /\ match_atom c21_query c_atom = false /\
-  mask_match_first (enc_qatom c21_query None) (enc_atom c_atom) = true.
-Proof. vm_compute. repeat split; reflexivity. Qed.
+Definition c30_query : qatom := QElem 6 (Some 30) (mkQX 0 false [] [] [] [] []).
+Theorem fixed_findings_examples :
+  query_ok (QMetal [] []) = true /\ atom_ok rn_atom = true /\ elem_hyp (QMetal [] []) 86 /\
+  match_atom (QMetal [] []) rn_atom = false /\ mask_match_first (enc_qatom (QMetal [] []) None) (enc_atom rn_atom) = false /\
+  query_ok h05_query = true /\ atom_ok c4_atom = true /\
+  match_atom h05_query c4_atom = false /\ mask_match_first (enc_qatom h05_query None) (enc_atom c4_atom) = false /\
+  query_ok c21_query = true /\ query_ok c30_query = true /\ atom_ok c_atom = true /\
+  match_atom c21_query c_atom = false /\ mask_match_first (enc_qatom c21_query None) (enc_atom c_atom) = false /\
+  match_atom c30_query c_atom = false /\ mask_match_first (enc_qatom c30_query None) (enc_atom c_atom) = false.
+Proof. repeat split; try (vm_compute; reflexivity); cbn; lia. Qed.
+
+(* an unknown hydrogen count is still encoded as 0 by _cython_compiled_structure, but QueryIsomorphism.get_mapping never
+   hands such a molecule to the mask path (uses_mask_path) *)
+Definition noh_atom : latom := mkLA 7 None 0 false 2 4 None 0 [6].
+Theorem unknown_h_takes_reference_path : forall rm a, In a rm -> la_h (ra_atom a) = None ->
+  uses_mask_path true rm = false.
+Proof.
+  intros rm a Hin Hn. unfold uses_mask_path, has_unknown_h. cbn [andb]. apply negb_false_iff.
+  apply existsb_exists. exists a. split; [exact Hin|]. rewrite Hn. reflexivity.
+Qed.
 
 (* ---- non-vacuity: concrete instances inside the hypotheses on which both sides are true / false ---- *)
 Theorem mask_match_example :
